@@ -141,6 +141,8 @@ func TestC17Random(t *testing.T) {
 		switch rapid.IntRange(0, 19).Draw(rt, "big") {
 		case 0, 1: // deep nesting (up to 90 levels)
 			f = genDeepForest(names, false).Draw(rt, "deepForest")
+		case 3:
+			f = genWideRepeat().Draw(rt, "wideRepeat")
 		case 2:
 			f = genForest(forestParams{maxNodes: 150, maxDepth: 12, names: names}).Draw(rt, "bigForest")
 		default:
